@@ -343,10 +343,15 @@ class Engine:
 
     def eval_lets(self, it, c, env, pre=False):
         """let-definitions; in the pre-state those mentioning `result` are simply not available yet"""
-        for nm, ex in c.let.items():
-            if pre and 'result' in ex:
-                continue
-            env.vars[nm] = self.eval_clause(it, ex, env)
+        saved = getattr(it, 'in_prestate', False)
+        it.in_prestate = pre
+        try:
+            for nm, ex in c.let.items():
+                if pre and 'result' in ex:
+                    continue
+                env.vars[nm] = self.eval_clause(it, ex, env)
+        finally:
+            it.in_prestate = saved
 
     def eval_clause(self, it, expr, env):
         node = ast.parse(expr, mode='eval').body
@@ -375,7 +380,7 @@ class Engine:
         if isinstance(v, Opt):
             return Opt(fresh(label + '?none', z3.BoolSort()), self.havoc_like(path, v.val, label))
         if v is None:
-            return None
+            raise Unsupported(f'havoc of a field that is None ({label}): give its builder in the modifies clause')
         if isinstance(v, str):
             return SV(fresh(label, StrS))
         if isinstance(v, SList):
@@ -461,15 +466,20 @@ class Engine:
             bc.eval_expr = lambda e, _env=env: self.eval_clause(it, e, _env)
             res = c.returns(bc, 'result')
         env.vars['result'] = res
-        for nm, ex in c.let.items():
-            env.vars[nm] = self.eval_clause(it, ex, env)
         saved = it.old_env
         it.old_env = old_env
         try:
+            for nm, ex in c.let.items():
+                env.vars[nm] = self.eval_clause(it, ex, env)
             for nm, ex in c.ensures:
+                ndec = len(p.decisions)
                 ev = self.eval_clause(it, ex, env)
                 if guard is not True:
                     ev = models.s_implies(it, [guard, ev], {})
+                if ev is False and len(p.decisions) == ndec:
+                    # a postcondition that is concretely false in the havoced state is a modelling error of the
+                    # callee contract; silently dropping the path would make the caller's proof vacuous
+                    raise Unsupported(f'postcondition {nm} of {c.name} is false in the state its own frame produces')
                 p.assume(ev)
         finally:
             it.old_env = saved
